@@ -1195,7 +1195,13 @@ def check_C14(tier):
         for follow in (False, True):
             extra.append({"nodes": nodes, "follow": follow, "min": -1, "max": -1, "glob": C.cps(g), "rooted": False, "walk_from": index["root"],
                           "base": "abs", "layers": [], "tree": "links", "origin": "library", "desc": "glob %r over tree links (follow=%s)" % (g, follow)})
-    for tname in ("plain", "deep", "links"):
+    # file names that are not valid UTF-8: the relative segment is a path, not a text
+    nodes, index = W.tree(W.TREES["bytes"])
+    for g in ("**", "**/*.txt", "a/**", "*/*", "a/*/g.txt"):
+        for base in ("abs", "trailing"):
+            extra.append({"nodes": nodes, "follow": False, "min": -1, "max": -1, "glob": C.cps(g), "rooted": False, "walk_from": index["root"],
+                          "base": base, "layers": [], "tree": "bytes", "origin": "library", "desc": "glob %r over tree bytes (names that are not UTF-8; %s)" % (g, base)})
+    for tname in ("plain", "deep", "links", "bytes"):
         nodes, index = W.tree(W.TREES[tname])
         for base in ("root", "root/a"):
             for spelling in ("abs", "trailing", "dot"):
